@@ -318,6 +318,38 @@ pub fn check_response(exp: &Expect, got: Option<&str>, line: &str, who: &str, re
 // generator
 // ------------------------------------------------------------------------------------------------
 
+/// Free text of arbitrary length and script (1- to 4-byte UTF-8 characters, quotes, escapes, controls):
+/// every place where the dispatcher echoes or formats client-supplied text gets such strings, with
+/// lengths around every plausible buffer / truncation size.
+fn gen_text(rng: &mut Rng) -> String {
+    let len = match rng.below(8) {
+        0 => rng.usize_below(4),
+        1 => 30 + rng.usize_below(40),
+        2 => 60 + rng.usize_below(20),
+        3 => 100 + rng.usize_below(60),
+        4 => 120 + rng.usize_below(16),
+        5 => 250 + rng.usize_below(20),
+        6 => 500 + rng.usize_below(40),
+        _ => 1000 + rng.usize_below(3200),
+    };
+    let alphabet: &[char] = match rng.below(5) {
+        0 => &['a', 'Z', '_', '7'],
+        1 => &['\u{e9}', '\u{df}', 'a', '\u{3a9}'],
+        2 => &['\u{6f22}', '\u{5b57}', '\u{20ac}', 'x'],
+        3 => &['\u{1f600}', '\u{1f680}', 'q'],
+        _ => &['a', '\u{e9}', '\u{6f22}', '\u{1f600}', '"', '\\', '\t', ' ', '\u{0}', '\u{7f}', '\u{feff}', '\u{85}', '\u{a0}'],
+    };
+    let mut out = String::new();
+    // a random ASCII prefix of 0-3 bytes shifts every later character boundary
+    for _ in 0..rng.below(4) {
+        out.push('p');
+    }
+    for _ in 0..len {
+        out.push(*rng.pick(alphabet));
+    }
+    out
+}
+
 fn gen_value(rng: &mut Rng, depth: u32) -> Value {
     match rng.below(if depth > 2 { 7 } else { 9 }) {
         0 => Value::Null,
@@ -325,6 +357,7 @@ fn gen_value(rng: &mut Rng, depth: u32) -> Value {
         2 => json!(rng.below(100_000)),
         3 => json!(-(rng.below(1000) as i64)),
         4 => json!(rng.f64() * 1e6),
+        5 if rng.chance(1, 4) => Value::String(gen_text(rng)),
         5 => json!(*rng.pick(&["classic", "enhanced", "", "Classic", "stats", "priority.window", "sub-0", "\u{1f600}", "a\"b\\c\n"])),
         6 => json!(u64::MAX - rng.below(3)),
         7 => Value::Array((0..rng.below(4)).map(|_| gen_value(rng, depth + 1)).collect()),
@@ -350,6 +383,9 @@ pub fn gen_line(rng: &mut Rng, class: &mut u64) -> String {
     let pclass = rng.below(8);
     let params: Option<String> = match pclass {
         0 | 1 | 2 => Some(match method {
+            "set_mode" if rng.chance(1, 6) => format!("{{\"mode\":{}}}", Value::String(gen_text(rng))),
+            "subscribe" if rng.chance(1, 6) => format!("{{\"topic\":{}}}", Value::String(gen_text(rng))),
+            "unsubscribe" if rng.chance(1, 6) => format!("{{\"subscription_id\":{}}}", Value::String(gen_text(rng))),
             "set_mode" => format!("{{\"mode\":\"{}\"}}", rng.pick(&["classic", "enhanced"])),
             "set_quality" | "set_stall_deselect" => format!("{{\"enabled\":{}}}", rng.chance(1, 2)),
             "set_conn_timeout" => format!("{{\"ms\":{}}}", num_text(rng)),
@@ -368,6 +404,7 @@ pub fn gen_line(rng: &mut Rng, class: &mut u64) -> String {
         0 | 1 => None,
         2 => Some("null".into()),
         3 => Some(rng.below(1 << 40).to_string()),
+        4 if rng.chance(1, 4) => Some(Value::String(gen_text(rng)).to_string()),
         4 => Some(format!("\"req-{}\"", rng.below(1000))),
         5 => Some("18446744073709551615".into()),
         6 => Some("-7".into()),
@@ -391,6 +428,7 @@ pub fn gen_line(rng: &mut Rng, class: &mut u64) -> String {
     match rng.below(14) {
         0 => {}
         1 => fields.push(format!("\"method\":{}", gen_value(rng, 2))),
+        2 => fields.push(format!("\"method\":{}", Value::String(gen_text(rng)))),
         _ => fields.push(format!("\"method\":{}", Value::String(method.to_string()))),
     }
     if let Some(p) = params {
@@ -439,8 +477,10 @@ fn gen_hostile_text(rng: &mut Rng, base: &str) -> String {
         1 => "[".repeat(200) + &"]".repeat(200),
         2 => format!("{{\"jsonrpc\":\"2.0\",\"method\":\"get_status\",\"id\":1,\"params\":{}{}}}", "[".repeat(150), "]".repeat(150)),
         3 => format!("{{\"jsonrpc\":\"2.0\",\"method\":\"get_status\",\"id\":\"{}\"}}", "x".repeat(100_000)),
+        4 if rng.chance(1, 2) => gen_text(rng).replace('\n', " "),
         4 => "not valid json".into(),
         5 => "   ".into(),
+        6 if rng.chance(1, 2) => Value::String(gen_text(rng)).to_string(),
         6 => "\"just a string\"".into(),
         7 => "[\"2.0\",\"get_status\",null,1]".into(),
         8 => "{\"jsonrpc\":\"2.0\",\"method\":\"set_conn_timeout\",\"params\":{\"ms\":30000},\"id\":1}{}".into(),
